@@ -32,6 +32,7 @@ func ruleNothingConsumedAtEnd(c *Ctx, rule string) {
 	}
 	// the offset field: the int field CONSUME advances by the length of what it read
 	offField := -1
+	var offStruct types.Type // the struct that declares the field (the state itself, or a struct embedded in it)
 	instrsOf(consume, func(in ssa.Instruction) {
 		st, ok := in.(*ssa.Store)
 		if !ok {
@@ -45,6 +46,7 @@ func ruleNothingConsumedAtEnd(c *Ctx, rule string) {
 			if call, ok := b.Y.(*ssa.Call); ok {
 				if bi, ok := call.Call.Value.(*ssa.Builtin); ok && bi.Name() == "len" {
 					offField = fa.Field
+					offStruct = deref(fa.X.Type())
 				}
 			}
 		}
@@ -53,14 +55,13 @@ func ruleNothingConsumedAtEnd(c *Ctx, rule string) {
 		r.Ob(rule, "anchor: the offset field advanced by CONSUME", c.pos(consume.Pos())).Und("CONSUME has no store `field += len(value)`")
 		return
 	}
-	stT := c.NamedType("engine", "SearchEngineState")
 	isOffLoad := func(v ssa.Value) bool {
 		u, ok := v.(*ssa.UnOp)
 		if !ok || u.Op != token.MUL {
 			return false
 		}
 		fa, ok := u.X.(*ssa.FieldAddr)
-		return ok && fa.Field == offField && stT != nil && types.Identical(deref(fa.X.Type()), stT)
+		return ok && fa.Field == offField && offStruct != nil && types.Identical(deref(fa.X.Type()), offStruct)
 	}
 	isSizeCall := func(v ssa.Value) bool {
 		call, ok := v.(*ssa.Call)
@@ -232,8 +233,8 @@ func ruleNothingConsumedAtEnd(c *Ctx, rule string) {
 			ob.Bad(fmt.Sprintf("at the end of the input (every read returns \"\") the call is still reachable [path conditions: %s]: the primitive succeeds without consuming a byte, so a class matches the empty string there", res.conds))
 		}
 	}
-	r.Floor(rule, "primitives that consume input", nfn, 6)
-	r.Floor(rule, "CONSUME call sites", nsite, 8)
+	r.Floor(rule, "primitives that consume input", nfn, 4)
+	r.Floor(rule, "CONSUME call sites", nsite, 5)
 }
 
 // progressMeaning reads a comparison as a statement about `offset after the site - offset before the site`:
@@ -382,6 +383,15 @@ func callersOf(fn *ssa.Function) []*ssa.Call {
 // test `state == S` (or the end-of-input arms): a character-only test that comes before the state's own arm takes characters away
 // from the string (a backslash before a blank used to end the literal).
 func ruleStringStatesOwnTheirCharacters(c *Ctx, rule string) {
+	ruleContentStatesOwnTheirCharacters(c, rule, "STRING", 4, "a character of the literal (after a backslash: `backslash before any other character means that character`) is handled as if it stood outside the string")
+}
+
+// ruleCommentStatesOwnTheirCharacters: the same for the comment states (C15: what stands inside a comment never reaches a token arm).
+func ruleCommentStatesOwnTheirCharacters(c *Ctx, rule string) {
+	ruleContentStatesOwnTheirCharacters(c, rule, "COMMENT", 2, "a character inside a comment is handled as if it stood outside the comment, so the text of a comment can change the token stream")
+}
+
+func ruleContentStatesOwnTheirCharacters(c *Ctx, rule string, nameHas string, floor int, consequence string) {
 	r := c.R
 	fn := c.Method("ast", "Lexer", "getNextToken")
 	names := map[string]string{}
@@ -430,7 +440,8 @@ func ruleStringStatesOwnTheirCharacters(c *Ctx, rule string) {
 	// string states: every state constant whose name says STRING (raw and escape states of both quote styles)
 	var states []string
 	for val, n := range names {
-		if strings.Contains(n, "STRING") {
+		// SCOMMENTSTART ("a dash was seen") is not inside a comment yet: what follows may be any token
+		if strings.Contains(n, nameHas) && !strings.HasSuffix(n, "START") {
 			states = append(states, val)
 		}
 	}
@@ -567,10 +578,10 @@ func ruleStringStatesOwnTheirCharacters(c *Ctx, rule string) {
 			ob.OKnt(fmt.Sprintf("with the state fixed to %s every reachable arm (%d) tests the state or the end of the input", name, own))
 		default:
 			sort.Strings(bad)
-			ob.Bad(fmt.Sprintf("with the state fixed to %s an arm that does not test the state takes the character: %s — a character of the literal (after a backslash: `backslash before any other character means that character`) is handled as if it stood outside the string", name, strings.Join(uniq(bad), "; ")))
+			ob.Bad(fmt.Sprintf("with the state fixed to %s an arm that does not test the state takes the character: %s — %s", name, strings.Join(uniq(bad), "; "), consequence))
 		}
 	}
-	r.Floor(rule, "string states of the lexer", n, 4)
+	r.Floor(rule, strings.ToLower(nameHas)+" states of the lexer", n, floor)
 }
 
 // ---------------------------------------------------------------------------------------------
@@ -856,4 +867,172 @@ func ruleZeroWidthCutRespectsMinimum(c *Ctx, rule string) {
 	default:
 		ob.OKnt("the BACKTRACK after an empty iteration is control-dependent on `step >= MinLoops`")
 	}
+}
+
+// ---------------------------------------------------------------------------------------------
+// C05.R11 / C11.R6: `return` ends the process code.
+//
+// World: every status read back from a statement is the one set by `return`. In that world no loop that runs process statements
+// (the bodies of if and loop statements, a transform, a subroutine's predicate) may go round again: the statements after a `return`
+// must not run, or the value of a transform is no longer the value that was returned.
+func ruleReturnStopsStatements(c *Ctx, rule string) {
+	r := c.R
+	psT := c.NamedType("engine", "ProcessState")
+	stmtT := c.NamedType("ast", "AstProcessStatement")
+	if psT == nil || stmtT == nil {
+		r.Ob(rule, "anchor engine.ProcessState / ast.AstProcessStatement", "").Und("not found")
+		return
+	}
+	st, _ := psT.Underlying().(*types.Struct)
+	statusIdx := -1
+	var statusT types.Type
+	for i := 0; st != nil && i < st.NumFields(); i++ {
+		if nt, ok := st.Field(i).Type().(*types.Named); ok {
+			if b, ok := nt.Underlying().(*types.Basic); ok && b.Info()&types.IsInteger != 0 && strings.Contains(strings.ToLower(st.Field(i).Name()), "status") {
+				statusIdx, statusT = i, nt
+			}
+		}
+	}
+	var kv constant.Value
+	kname := ""
+	if p := c.Pkgs["engine"]; p != nil && statusT != nil {
+		for _, obj := range p.TypesInfo.Defs {
+			if cst, ok := obj.(*types.Const); ok && types.Identical(cst.Type(), statusT) && strings.Contains(strings.ToUpper(cst.Name()), "RETURN") {
+				kv, kname = cst.Val(), cst.Name()
+			}
+		}
+	}
+	if statusIdx < 0 || kv == nil {
+		r.Ob(rule, "anchor: status field of engine.ProcessState and the status set by `return`", "").Und("not found")
+		return
+	}
+	// the statement executor: takes a statement (pointer) and a state, returns a state
+	isExec := func(sc *ssa.Function) bool {
+		if sc == nil || sc.Signature.Results().Len() != 1 || !types.Identical(sc.Signature.Results().At(0).Type(), psT) {
+			return false
+		}
+		for i := 0; i < sc.Signature.Params().Len(); i++ {
+			if types.Identical(deref(sc.Signature.Params().At(i).Type()), stmtT) {
+				return true
+			}
+		}
+		return false
+	}
+	n := 0
+	for _, fn := range c.SrcFuncs("engine") {
+		var calls []*ssa.Call
+		instrsOf(fn, func(in ssa.Instruction) {
+			if call, ok := in.(*ssa.Call); ok && isExec(call.Call.StaticCallee()) {
+				if innermostLoop(fn, call.Block()) != nil {
+					calls = append(calls, call)
+				}
+			}
+		})
+		if len(calls) == 0 {
+			continue
+		}
+		mkWorld := func(call *ssa.Call) *World {
+			idx := 0
+			for i, x := range call.Block().Instrs {
+				if x == ssa.Instruction(call) {
+					idx = i
+				}
+			}
+			// the analysis begins right behind the statement: can the same call be reached again?
+			return &World{Fn: fn, StartBlock: call.Block(), StartIndex: idx + 1,
+				Seed: func(v ssa.Value) (constant.Value, bool) {
+					if f, ok := v.(*ssa.Field); ok && f.Field == statusIdx && types.Identical(f.X.Type(), psT) {
+						return kv, true
+					}
+					return nil, false
+				},
+				CellDefault: func(a *ssa.Alloc, path string, t types.Type) wLat {
+					if types.Identical(t, statusT) && types.Identical(deref(a.Type()), psT) && path == fmt.Sprintf(".%d", statusIdx) {
+						return wConst(kv)
+					}
+					return wTop
+				}}
+		}
+		for k, call := range calls {
+			n++
+			ob := r.Ob(rule, fmt.Sprintf("%s: statement loop #%d stops once a statement returned", fnName(fn), k+1), c.pos(call.Pos()))
+			w := mkWorld(call)
+			w.Run()
+			cyc := w.Reentered
+			forced := false
+			if cyc {
+				// is the call reached again without relying on a decision the analysis could not make? Unknown ordering comparisons
+				// (the bound of a counting loop) are let through, unknown equalities (`k == 0 || ...`) are not.
+				seenB := map[*ssa.BasicBlock]bool{}
+				work := append([]*ssa.BasicBlock{}, call.Block().Succs...)
+				if len(call.Block().Succs) == 2 {
+					work = nil
+					for si, sb := range call.Block().Succs {
+						if w.Edge[[2]*ssa.BasicBlock{call.Block(), call.Block().Succs[si]}] {
+							work = append(work, sb)
+						}
+					}
+				}
+				for len(work) > 0 && !forced {
+					b := work[len(work)-1]
+					work = work[:len(work)-1]
+					if seenB[b] {
+						continue
+					}
+					seenB[b] = true
+					if b == call.Block() {
+						forced = true
+						break
+					}
+					iff, _ := b.Instrs[len(b.Instrs)-1].(*ssa.If)
+					for _, sb := range b.Succs {
+						if !w.Edge[[2]*ssa.BasicBlock{b, sb}] {
+							continue
+						}
+						if iff != nil && w.get(iff.Cond).k != 1 {
+							cmp, isCmp := iff.Cond.(*ssa.BinOp)
+							if !isCmp || cmp.Op == token.EQL || cmp.Op == token.NEQ {
+								continue
+							}
+						}
+						work = append(work, sb)
+					}
+				}
+			}
+			if cyc && forced {
+				ob.Bad("with every status read fixed to " + kname + " the loop around this call goes round again (every decision on the way folds, or is the bound of the loop): the statements after a `return` run as well, and the value handed back is no longer the returned one")
+			} else if cyc {
+				// does anything in the loop look at the status at all?
+				loop := innermostLoop(fn, call.Block())
+				looks := false
+				statusReads := map[ssa.Value]bool{}
+				instrsOf(fn, func(in ssa.Instruction) {
+					switch x := in.(type) {
+					case *ssa.Field:
+						if x.Field == statusIdx && types.Identical(x.X.Type(), psT) {
+							statusReads[x] = true
+						}
+					case *ssa.UnOp:
+						if fa, ok := x.X.(*ssa.FieldAddr); ok && x.Op == token.MUL && fa.Field == statusIdx && types.Identical(deref(fa.X.Type()), psT) {
+							statusReads[x] = true
+						}
+					}
+				})
+				deps := dataDeps(fn, statusReads)
+				for b := range loop {
+					if iff, ok := b.Instrs[len(b.Instrs)-1].(*ssa.If); ok && deps[iff.Cond] {
+						looks = true
+					}
+				}
+				if !looks {
+					ob.Bad("no branch of the loop around this call looks at the status a statement hands back: the statements after a `return` run as well, and the value handed back is no longer the returned one")
+				} else {
+					ob.Und("with every status read fixed to " + kname + " the loop around this call can still go round, although a branch of the loop tests the status (the test is combined with something that does not fold, or has the wrong sense)")
+				}
+			} else {
+				ob.OKnt("with every status read fixed to " + kname + " the loop's back edge is infeasible")
+			}
+		}
+	}
+	r.Floor(rule, "loops that run process statements", n, 1)
 }
